@@ -63,6 +63,10 @@ func partitionGrammar(t *simrt.Tape, service, product, suffix string) []string {
 		base + "_" + service + "_" + product + "_" + suffix,
 		"_" + base,
 		base + base,
+		strings.ToUpper(base),
+		strings.ToUpper(base[:1]) + base[1:],
+		strings.TrimSpace(base + " "),
+		base + " ",
 	}
 	n := 1 + t.Choose(3, "part.n")
 	for i := 0; i < n; i++ {
